@@ -34,6 +34,32 @@ Fixpoint stmt_len (ts : list token) (depth : nat) : option nat :=
       else option_map S (stmt_len r depth)
   end.
 
+(* a statement with a brace initialiser (io_init): plain tokens, "{", plain tokens, "}", a statement tail *)
+Fixpoint take_plain (ts : list token) : list token * list token :=
+  match ts with
+  | t :: r => if plain t then let '(p, rest) := take_plain r in (t :: p, rest) else ([], ts)
+  | [] => ([], [])
+  end.
+Definition init_len (ts : list token) : option nat :=
+  let '(pre, r1) := take_plain ts in
+  match r1 with
+  | o :: r2 =>
+      if is_lbrace o && negb (Nat.eqb (length pre) 0) then
+        let '(flat, r3) := take_plain r2 in
+        match r3 with
+        | c :: r4 =>
+            if is_rbrace c then
+              match stmt_len r4 O with
+              | Some n => if inner_b (firstn (n - 1) r4) then Some (length pre + 1 + length flat + 1 + n)%nat else None
+              | None => None
+              end
+            else None
+        | [] => None
+        end
+      else None
+  | [] => None
+  end.
+
 Fixpoint take_words (ts : list token) : list token * list token :=
   match ts with
   | t :: r => if word_tok t then let '(ws, rest) := take_words r in (t :: ws, rest) else ([], ts)
@@ -146,6 +172,9 @@ Fixpoint parse_items (fuel : nat) (l : language) (off : nat) (ts : list token) :
                | Some n =>
                    if inner_b (firstn (n - 1) ts) then parse_items f l (off + n) (skipn n ts) else None
                | None =>
+                   match init_len ts with
+                   | Some n => parse_items f l (off + n) (skipn n ts)
+                   | None =>
                    match parse_head l ts with
                    | None => None
                    | Some (hk, rest) =>
@@ -179,6 +208,7 @@ Fixpoint parse_items (fuel : nat) (l : language) (off : nat) (ts : list token) :
                            end
                        | [] => None
                        end
+                   end
                    end
                end
       end
